@@ -387,6 +387,7 @@ std::string run_op(World& w, const std::vector<std::string>& t, std::ostream& ou
 // one case (its lines, without the final "end") on a fresh World
 std::string run_heap_case(const std::vector<std::string>& lines) {
   std::ostringstream out;
+  perturb_set(0);          // every case starts with the plain allocation order
   World w;
   for (auto const& line : lines) {
     auto t = split_ws(line);
